@@ -27,7 +27,8 @@ Ob(e) == [t |-> "obj", e |-> e]
 NLs(n) == [i \in 1..n |-> 10]
 
 ParseKinds == {"badobj", "badtag", "unknowntag", "strayend", "strayclause", "badif", "openif", "openraw", "opencomment"}
-RenderKinds == {"filtererr", "converr", "nofilter", "strict", "nofile", "incarg"}
+RenderKinds == {"filtererr", "converr", "nofilter", "strict", "nofile", "incarg", "ifcond", "forcoll", "casesubj", "assignerr", "whenerr", "captureinner"}
+DivZero == [t |-> "filter", e |-> Lit(IntV(1)), name |-> "divided_by", args |-> <<Lit(IntV(0))>>]
 Bad(k) ==
   CASE k \in ParseKinds -> [t |-> k]
     [] k = "filtererr" -> Ob([t |-> "filter", e |-> Lit(IntV(1)), name |-> "divided_by", args |-> <<Lit(IntV(0))>>])
@@ -36,8 +37,15 @@ Bad(k) ==
     [] k = "strict" -> Ob(Var(<<117, 110, 100, 101, 102>>))
     [] k = "nofile" -> [t |-> "include", e |-> Lit(Str(<<110, 111, 102, 105, 108, 101>>))]
     [] k = "incarg" -> [t |-> "include", e |-> Lit(IntV(5))]
+    \* the failing expression belongs to a block tag, an assign, a when clause on the tag's own line
+    [] k = "ifcond" -> [t |-> "if", branches |-> <<[c |-> DivZero, body |-> <<T(<<113>>)>>]>>]
+    [] k = "forcoll" -> [t |-> "for", tag |-> "for", var |-> <<106>>, coll |-> DivZero, body |-> <<T(<<113>>)>>]
+    [] k = "casesubj" -> [t |-> "case", e |-> DivZero, pre |-> <<>>, whens |-> <<[vals |-> <<Lit(IntV(1))>>, body |-> <<T(<<113>>)>>]>>]
+    [] k = "assignerr" -> [t |-> "assign", name |-> <<113>>, e |-> DivZero]
+    [] k = "whenerr" -> [t |-> "case", e |-> Lit(IntV(1)), pre |-> <<>>, whens |-> <<[vals |-> <<[t |-> "filter", e |-> Lit(IntV(1)), name |-> "nosuchfilter", args |-> <<>>]>>, body |-> <<T(<<113>>)>>]>>]
+    [] k = "captureinner" -> [t |-> "capture", name |-> <<113>>, body |-> <<T(<<10>>), Ob(DivZero)>>]
 Mention(k) == CASE k = "filtererr" -> "divided_by" [] k = "nofilter" -> "nosuchfilter" [] k = "unknowntag" -> "nosuchtag" [] OTHER -> ""
-HasCause(k) == k \in {"filtererr", "converr"}
+HasCause(k) == k \in {"filtererr", "converr", "ifcond", "forcoll", "casesubj", "assignerr", "captureinner"}
 
 Wrappers == {"if", "for", "case", "capture", "unless"}
 RECURSIVE Shapes(_)
@@ -67,7 +75,7 @@ Padded(n, k) == IF k = 0 THEN n ELSE n @@ [padnl |-> k]
 Before(x) == IF x.pad = 0 THEN <<>> ELSE <<Padded(Ob(Lit(IntV(7))), 1)>>
 ProgOf(x) == <<T(<<120>> \o NLs(x.a))>> \o Before(x) \o Nest(x.shape, <<Padded(Bad(x.k), x.pad)>>, x.b) \o <<T(<<10, 101>>)>>
 \* the line on which the failing construct begins, by construction
-StaticLine(x) == x.line0 + x.a + x.b * Len(x.shape) + (IF x.pad = 0 THEN 0 ELSE 1)
+StaticLine(x) == x.line0 + x.a + x.b * Len(x.shape) + (IF x.pad = 0 THEN 0 ELSE 1) + (IF x.k = "captureinner" THEN 1 + x.pad ELSE 0)
 PathOf(x) == IF x.path THEN <<100, 47, 116, 46, 108, 105, 113>> ELSE <<>>          \* d/t.liq
 
 Cx(x) == [Cx0 EXCEPT !.strict = (x.k = "strict"), !.path = PathOf(x), !.line0 = x.line0,
@@ -76,7 +84,8 @@ Init == \E x \in Cases : c = x /\ st = InitSt(IF x.k \in ParseKinds THEN <<>> EL
 Next == st.status = "run" /\ st' = Step(Cx(c), st) /\ c' = c
 
 \* a render-time failure ends in the error state with the static line of the failing node
-ErrLocated == (c.k \in RenderKinds /\ st.status # "run") => st.status = "error" /\ st.err.line = StaticLine(c)
+\* (a failing when-clause value: the statement does not say whether the line is the case tag's or the when tag's)
+ErrLocated == (c.k \in RenderKinds /\ st.status # "run") => st.status = "error" /\ (st.err.line = StaticLine(c) \/ c.k = "whenerr")
 NoOutputAfterError == (c.k \in RenderKinds /\ st.status = "error") => st.sink.calls <= 2 * Len(c.shape) + 2
 
 IdOf(x) == x.k \o "-" \o ToString(x.shape) \o "-" \o ToString(x.a) \o ToString(x.b) \o ToString(x.path) \o ToString(x.line0) \o ToString(x.pad)
